@@ -156,6 +156,26 @@ def main(tier, seed):
             prev = step
     rep.run("OrbaxCheckpointer:cadence-history(3 records from the initial state)", ck_history, fn="OrbaxCheckpointer.record_epoch")
 
+    def ck_implicit(ctx):
+        """implicit steps: the checkpointer's own step counter is the sum of the stopped episodes' lengths, and a record
+        without an explicit step is filed under it (interval crossings judged on that counter)"""
+        ck = mk_ck()
+        f = sym_int("interval", 1, None)
+        ck.define_checkpoint_frequency("q", f)
+        total, prev = 0, 0
+        for i in range(3):
+            k = sym_int(f"len{i}", 0, None)
+            ck.start_new_episode()
+            ck.stop_episode(k)
+            total = total + k
+            ctx.check(ck.n_steps == total, "step-counter-advances-with-stop")
+            before = len(ck.checkpoint_path["q"])
+            ck.record_epoch("q", model)
+            grew = len(ck.checkpoint_path["q"]) - before
+            ctx.check((grew == 1) == ((total // f) > (prev // f)), "history:checkpoint-set-grows-exactly-at-crossings")
+            prev = total
+    rep.run("OrbaxCheckpointer:implicit-steps(3 episodes)", ck_implicit, fn="OrbaxCheckpointer.stop_episode/record_epoch")
+
     if tier == "thorough":
         _crosshair_twin(rep)
     return rep.finish()
